@@ -3,8 +3,10 @@
   (`mangle()` / `seq_escape()` in fs/proc_namespace.c, fs/seq_file.c): every byte of
   the escape set is written as a backslash and three octal digits.  The escape set
   differs per field and kernel version (paths: space, tab, newline, backslash; mount
-  source additionally '#'; option values additionally ',' and '='), so the
-  specification is parametrised by an arbitrary set `E` that contains the backslash.
+  source additionally '#'; `seq_show_option(m, name, value)` escapes the option VALUE with
+  the path set and ',' only -- an '=' inside a value is written as it is -- and the option
+  NAME additionally with '='), so the specification is parametrised by an arbitrary set `E`
+  that contains the backslash.
 -/
 import Lc.Base.Bytes
 
@@ -20,7 +22,13 @@ def mangleWith (E : Nat → Bool) (s : Bytes) : Bytes :=
 def pathEsc (b : Nat) : Bool := b == 32 || b == 9 || b == 10 || b == 92
 /-- escape set of the mount-source field (newer kernels add '#') -/
 def srcEsc (b : Nat) : Bool := pathEsc b || b == 35
-/-- escape set of `seq_show_option` values (overlay lowerdir/upperdir/workdir) -/
-def optEsc (b : Nat) : Bool := pathEsc b || b == 44 || b == 61
+/-- escape set of `seq_show_option` VALUES (overlay lowerdir/upperdir/workdir):
+    `seq_escape(m, value, ", \t\n\\")`.  No '=': a directory called `cake=17.1` appears
+    as it is, so a reader must cut `name=value` at the FIRST '=' only. -/
+def optEsc (b : Nat) : Bool := pathEsc b || b == 44
+/-- escape set of `seq_show_option` NAMES: `seq_escape(m, name, ",= \t\n\\")`.  (The names
+    of a well-formed table, `KeyOK`, contain none of these bytes, so `renderSOpt` writes the
+    name as it is.) -/
+def optNameEsc (b : Nat) : Bool := optEsc b || b == 61
 
 end Lc.Spec
